@@ -28,6 +28,7 @@ states of a ref (loose over stale packed / packed only / absent), following one 
 handed to a conditional update is never None and absent refs are created with add_if_new.
 R6 whatever a method writes to packed-refs is the cached view get_packed_refs() answers from, or that cache is replaced
 on every normal path after the write (the value in force for the next conditional update is read through the cache).
+R7 a method that rewrites packed-refs has no way out that skips (re)reading packed-refs first.
 Does not decide: atomicity between the read and the write (no lock file on arbitrary transports).
 """
 ASSUMPTIONS = ["dulwich RefsContainer semantics: ZERO_SHA stands for an absent ref in comparisons"]
@@ -288,6 +289,17 @@ def run(ctx):
                         w_ = calling(gx, name="write_packed_refs") or calling(gx, attr="write_packed_refs")
                         upd = [n.id for n in gx.nodes if n.kind == "stmt" and isinstance(n.ast, ast.Assign) and any(norm(t) == packed for t in n.ast.targets)]
                         ok = bool(w_) and bool(upd) and gx.exit not in gx.reach(w_, avoid=set(upd))
+                    # R7: a function that rewrites packed-refs decides on the state in force: no exit before the packed
+                    # refs have been (re)read — an early way out keyed on "nothing cached yet" leaves the packed entry
+                    # of a ref whose conditional delete has just been reported as done
+                    from ..cfg import build_cfg as _bc
+                    from ..rules import calling as _calling
+
+                    g7 = _bc(fn).without_exc_edges()
+                    rd7 = _calling(g7, attr="get_packed_refs") or _calling(g7, name="read_packed_refs")
+                    r7 = g7.reach([g7.entry], avoid=set(rd7), include_src=True)
+                    w7 = g7.path([g7.entry], [g7.exit], avoid=set(rd7)) if g7.exit in r7 else None
+                    ctx.check("R7-packed-rewrite-reads-state", where, bool(rd7) and g7.exit not in r7, f"{q}: every way out passes a (re)read of packed-refs", construct="exit without reading packed-refs", message=f"{q} can return before it has read packed-refs (e.g. when nothing is cached yet): a conditional delete that matched the loose value reports success while the packed entry stays, and the ref comes back with that stale value", witness=g7.show_path(w7) if w7 else None)
                     ctx.check("R6-packed-cache-follows-file", where, ok, f"{q}: what is written to packed-refs is the cached view {caches} (or the cache is replaced afterwards)", construct=f"write_packed_refs(…, {', '.join(handed)})", message=f"{q} writes packed-refs from {handed} while the cache {packed} that get_packed_refs() answers from is left as it was: the next conditional update compares with a value that is no longer in force (a removed ref still looks present, add_if_new refuses to create it, set_if_equals succeeds against the stale value)")
     n_all = 0
     for rel in repo.python_files():
@@ -302,6 +314,7 @@ def run(ctx):
 
 _FIX_SET = "        if old_ref is not None:\n            orig_ref = self.read_loose_ref(realname)\n            if orig_ref is None:\n                orig_ref = self.get_packed_refs().get(realname, ZERO_SHA)\n            if orig_ref != old_ref:\n                return False\n"
 MUTANTS = [
+    Mutant("packed removal skipped while nothing is cached", TG, "    def _remove_packed_ref(self, name):\n", "    def _remove_packed_ref(self, name):\n        if self._packed_refs is None:\n            return\n", expect="R7-packed-rewrite-reads-state"),
     Mutant("packed ref removed from the file but not from the cache", TG, "        del self._packed_refs[name]\n        if name in self._peeled_refs:\n            del self._peeled_refs[name]\n        with self.transport.open_write_stream(\"packed-refs\") as f:\n            write_packed_refs(f, self._packed_refs, self._peeled_refs)\n", "        packed_refs = {k: v for k, v in self._packed_refs.items() if k != name}\n        peeled_refs = {k: v for k, v in self._peeled_refs.items() if k != name}\n        with self.transport.open_write_stream(\"packed-refs\") as f:\n            write_packed_refs(f, packed_refs, peeled_refs)\n", expect="R6-packed-cache-follows-file"),
     Mutant("neutral: new packed-refs built on the side, cache replaced after the write", TG, "        del self._packed_refs[name]\n        if name in self._peeled_refs:\n            del self._peeled_refs[name]\n        with self.transport.open_write_stream(\"packed-refs\") as f:\n            write_packed_refs(f, self._packed_refs, self._peeled_refs)\n", "        packed_refs = {k: v for k, v in self._packed_refs.items() if k != name}\n        peeled_refs = {k: v for k, v in self._peeled_refs.items() if k != name}\n        with self.transport.open_write_stream(\"packed-refs\") as f:\n            write_packed_refs(f, packed_refs, peeled_refs)\n        self._packed_refs = packed_refs\n        self._peeled_refs = peeled_refs\n", neutral=True),
     Mutant("absent ref created with set_if_equals(name, None, ...)", IR, "                    try:\n                        old_git_id = old_refs[name][0]\n                    except KeyError:\n                        self.target_refs.add_if_new(name, gitid)\n                    else:\n                        self.target_refs.set_if_equals(name, old_git_id, gitid)\n", "                    old_git_id = old_refs.get(name, (None, None))[0]\n                    self.target_refs.set_if_equals(name, old_git_id, gitid)\n", expect="R5-expected-value-present"),
